@@ -125,7 +125,35 @@ func GenNoti(rng *simrt.Rand, u *gen.Universe, target string, tsLo, tsHi int64, 
 			n.Ups = append(n.Ups, gen.Upd{Path: p, Val: gen.RandVal(rng, small)})
 		}
 		for i := rng.Intn(3); i > 0; i-- {
-			n.Dels = append(n.Dels, gen.RandElems(rng, 3, 0.3))
+			// deletes that travel with updates: mostly aimed at leaves that
+			// exist (this pool leaf, its parent, another pool leaf below the
+			// same prefix, everything below the prefix)
+			var d []gen.Elem
+			switch rng.Pick(3, 3, 2, 3, 2) {
+			case 0:
+				d = gen.RandElems(rng, 3, 0.3)
+			case 1:
+				d = rest
+			case 2:
+				if len(rest) > 1 {
+					d = rest[:len(rest)-1]
+				} else {
+					d = []gen.Elem{{N: "*"}}
+				}
+			case 3:
+				other := u.Leaves[rng.Intn(len(u.Leaves))]
+				if len(other) > cut && gen.Key(gen.Index(gen.Path(other[:cut], false, 0))) == gen.Key(gen.Index(gen.Path(full[:cut], false, 0))) {
+					d = other[cut:]
+				} else {
+					d = []gen.Elem{{N: "*"}}
+				}
+			case 4:
+				d = []gen.Elem{{N: "*"}}
+			}
+			if len(d) == 0 {
+				d = []gen.Elem{{N: "*"}}
+			}
+			n.Dels = append(n.Dels, append([]gen.Elem(nil), d...))
 		}
 	case 2: // atomic container at the prefix
 		n.Atomic = true
@@ -668,6 +696,7 @@ func (H) Execute(x *common.Exec, s any) {
 	})
 	x.R.Schedule(true, nil)
 	x.R.AcquireEnd()
+	w.countFaults(x)
 	if x.Prop == "C12" {
 		w.judgeHostile(x)
 		return
@@ -720,6 +749,69 @@ func (H) Execute(x *common.Exec, s any) {
 	x.R.Schedule(true, nil)
 	x.R.AcquireEnd()
 	w.judgeLifecycleRace(x, final2)
+}
+
+// countFaults reports what actually happened in this run that the property
+// quantifies over as a fault or an adverse condition (read from the records
+// after every task has finished).
+func (w *world) countFaults(x *common.Exec) {
+	sc := w.sc
+	for _, rs := range w.recs {
+		var lastTS int64
+		for _, r := range rs {
+			switch r.op.K {
+			case "reset", "remove", "add", "connerr":
+				x.Fault("target-" + r.op.K)
+			case "upd":
+				switch r.class {
+				case "stale", "future":
+					x.Fault("update-rejected-" + r.class)
+				case "error":
+					x.Fault("update-rejected-other")
+				}
+				if r.noti != nil {
+					if r.noti.Timestamp < lastTS {
+						x.Fault("timestamp-out-of-order")
+					} else if r.noti.Timestamp == lastTS {
+						x.Fault("timestamp-equal-to-previous")
+					}
+					lastTS = r.noti.Timestamp
+					if r.noti.Atomic {
+						x.Fault("atomic-notification")
+					}
+					if x.Prop == "C12" {
+						for _, f := range gen.UnusualFeatures(r.noti) {
+							x.Fault("peer-message:" + f)
+						}
+					}
+					if len(r.noti.Delete) > 0 {
+						x.Fault("delete-in-notification")
+					}
+				}
+			}
+		}
+	}
+	prev := sc.Clock0
+	for _, c := range w.clkLog {
+		if c[1] < prev {
+			x.Fault("collector-clock-jumps-backwards")
+		} else if c[1] > prev+5 {
+			x.Fault("collector-clock-jumps-forwards")
+		}
+		prev = c[1]
+	}
+	if sc.ClockMode == "frozen" {
+		x.Fault("collector-clock-frozen")
+	}
+	if len(sc.Refresh) > 0 {
+		x.Fault("concurrent-metadata-refresh")
+	}
+	if sc.Readers > 0 {
+		x.Fault("concurrent-readers")
+	}
+	if len(sc.Admin) > 0 {
+		x.Fault("reset-raced-with-remove-add")
+	}
 }
 
 // judgeLifecycleRace: after Reset calls raced against Remove/Add of the same
@@ -853,6 +945,7 @@ func (w *world) judge(x *common.Exec, final map[string]map[string]leafSnap, fina
 			if foreign != "" {
 				x.Violate("C14/feed-foreign-target", "operation %s on target %s put a notification for another target on the feed: %s\n%s", r.op.K, tg, foreign, hist(k))
 			}
+			feedBad := false
 			switch r.op.K {
 			case "upd":
 				if !exists {
@@ -893,7 +986,7 @@ func (w *world) judge(x *common.Exec, final map[string]map[string]leafSnap, fina
 						sig = "C03/feed-unexpected"
 					}
 					x.Violate(sig, "target %s op #%d %s (result %s): %s\nobserved feed: %v\nexpected: %v\n%s", tg, k, compact(r.noti), r.class, msg, observed, exp.Groups, hist(k))
-					return
+					feedBad = true // the stored content is still compared with the model below (C02)
 				}
 				if r.mutated != "" {
 					x.Violate("C03/input-mutated", "target %s op #%d: the caller's notification was modified by GnmiUpdate\n%s", tg, k, r.mutated)
@@ -982,6 +1075,18 @@ func (w *world) judge(x *common.Exec, final map[string]map[string]leafSnap, fina
 					x.Violate("C02/stored-under-wrong-path", "target %s: leaf reported at %s holds a notification for another path", tg, gen.Show(key))
 				}
 			}
+			// Feed replay up to here == stored content (values): independent of the model.
+			rp := cachemodel.Replay{}
+			for _, fr := range feed {
+				if fr.stamp < r.ret || (r.op.K == "remove") {
+					rp.Feed(fr.snap)
+				}
+			}
+			replayBad := false
+			if got, want := rp.String(tg, false), contentOf(r.after, false); got != want {
+				x.Violate("C03/replay-mismatch", "target %s after op #%d %s: replaying the change feed gives\n%sbut the cache holds\n%s%s", tg, k, r.op.K, got, want, hist(k))
+				replayBad = true
+			}
 			if got, want := contentOf(r.after, true), m.Content(true); got != want {
 				sig := "C02/content"
 				if r.op.K != "upd" {
@@ -990,15 +1095,7 @@ func (w *world) judge(x *common.Exec, final map[string]map[string]leafSnap, fina
 				x.Violate(sig, "target %s after op #%d %s: cache holds\n%swant (model)\n%s%s", tg, k, r.op.K, got, want, hist(k))
 				return
 			}
-			// Feed replay up to here == stored content (values).
-			rp := cachemodel.Replay{}
-			for _, fr := range feed {
-				if fr.stamp < r.ret || (r.op.K == "remove") {
-					rp.Feed(fr.snap)
-				}
-			}
-			if got, want := rp.String(tg, false), contentOf(r.after, false); got != want {
-				x.Violate("C03/replay-mismatch", "target %s after op #%d %s: replaying the change feed gives\n%sbut the cache holds\n%s%s", tg, k, r.op.K, got, want, hist(k))
+			if replayBad || feedBad {
 				return
 			}
 			var prev *opRec
